@@ -15,7 +15,7 @@ CLAIMED = {
    note="Trusts the generator's span map (cut positions that leave a well-formed prefix). Entities that the chosen configuration does not load are skipped and counted."),
  "C04": dict(engine="streamsim", cat="exploration", ref="5.C04",
    technique="deterministic simulation with fault injection: seeded read-partition schedules (1-byte, fixed-k, geometric, targeted inside a chosen construct) per entity x source kind x low-water mark, differential against the one-shot in-memory parse",
-   text="Each simulated run parses one generated world (document + external DTD/entities, any of 13 encodings, 30% byte-mutated, most documents padded so that the body lies beyond the 48K raw buffer) twice with the same configuration: once in one read from memory, once with a seeded per-entity read schedule through a custom stream, LocalFile/StdIn sources over the simulated file manager, or a URL source over the simulated net accessor. Canonical dumps (events, errors, positions, src offsets) must be equal. Reach probes count read boundaries that actually fell inside each construct kind.",
+   text="Each simulated run parses one generated world (document + external DTD/entities, any of 14 encodings incl. Shift_JIS, which goes through the stateful ICU transcoder, 30% byte-mutated, most documents padded so that the body lies beyond the 48K raw buffer) twice with the same configuration: once in one read from memory, once with a seeded per-entity read schedule through a custom stream, LocalFile/StdIn sources over the simulated file manager, or a URL source over the simulated net accessor. Canonical dumps (events, errors, positions, src offsets) must be equal. Reach probes count read boundaries that actually fell inside each construct kind.",
    note="Trusts the canonical dump (SAX character callbacks are coalesced; system ids are normalised). The first 48K of every entity are consumed in one go by the reader (after fix c237369), so boundary effects are exercised on the part of a document beyond that; evidence reports split_after_first_48K probes separately."),
 }
 
@@ -26,7 +26,7 @@ CLAIMED.update({
    note="Trust: canonical dump, same simulated world for both parsers. The cached-grammar comparison is made only for grammars that load without errors or warnings (an inline parse reports the grammar's own errors inside the instance's record) and only with pools that hold nothing the instance would not load itself."),
  "C18": dict(engine="histsim", cat="fault_enumeration", ref="5.C18",
    technique="deterministic simulation with fault injection: every ending of a parse (handler exception at each callback k, abandon after each progressive step, stream failure at each read, truncation, adopt/release orders, reuse) enumerated against a ledger MemoryManager; Initialize/Terminate nesting with a ledger global manager in every run",
-   text="Every run performs its own XMLPlatformUtils::Initialize (custom ledger global manager, nesting depth 1-3, optionally the DOM-heap overload) and Terminate. In between, for one generated world and configuration, every way the parse can end is executed on a parser that owns its own ledger manager: natural end, exception thrown from the k-th callback for every k (capped per tier), progressive parse abandoned after every step, stream failing at reads 1-3 of every entity, truncation, adoptDocument with both destruction orders, reuse. After the parser is destroyed its ledger must be empty and no foreign or double free may have occurred (freed blocks stay quarantined and ASan-poisoned for the run); after the last Terminate the global ledger must be empty; a second Initialize/Terminate cycle must reproduce the same dump.",
+   text="Every run performs its own XMLPlatformUtils::Initialize (custom ledger global manager, nesting depth 1-3, optionally the DOM-heap overload) and Terminate. In between, for one generated world and configuration, every way the parse can end is executed on a parser that owns its own ledger manager: natural end, exception thrown from the k-th callback for every k (capped per tier), progressive parse abandoned after every step, stream failing at reads 1-3 of every entity, truncation, adoptDocument with both destruction orders, adoptDocument() on a parser that holds no document followed by a normal parse, reuse. After the parser is destroyed its ledger must be empty and no foreign or double free may have occurred (freed blocks stay quarantined and ASan-poisoned for the run); after the last Terminate the global ledger must be empty; a second Initialize/Terminate cycle must reproduce the same dump.",
    note="Blocks that bypass MemoryManager are outside the ledger (LSan not run). OutOfMemoryException endings are not judged by the leak oracle (not among the endings the statement lists; the scanners skip clean-up on it by design)."),
 })
 
@@ -51,8 +51,8 @@ CLAIMED.update({
 CLAIMED.update({
  "C13": dict(engine="domsim", cat="exploration", ref="5.C13",
    technique="deterministic simulation: seeded histories of DOM Core operations (incl. the forbidden ones as injected faults) executed step by step on real xerces-c documents and on RefDOM, a small executable reference model written from the DOM specification; refinement check (exception behaviour + parallel tree walk through public getters) after every step",
-   text="Each run creates 1-2 documents and executes a seeded history (quick 3-40 steps, thorough up to 800) of create*, insertBefore / appendChild / removeChild / replaceChild, cloneNode, importNode, adoptNode, renameNode, attribute set / remove by name and by node, character-data edits with arbitrary offsets, splitText, normalize, setTextContent, setUserData and release, with operands drawn from all live nodes of all documents and detached subtrees, so that the forbidden combinations (node into itself or a descendant, foreign-document node, reference child that is no child, second document element, out-of-range offset, invalid name) occur at the rate legal ones do. After every step: a forbidden call must have raised DOMException with a code of one of the violated preconditions and every call the model allows must have succeeded; then a parallel walk of all live roots compares type, name, value, namespace, parent / sibling / first / last / childNodes links in both directions, attribute maps and owner elements, ownerDocument, and the document element with the reference.",
-   note="The model does not mirror the Text children that carry attribute values, entity-reference subtrees (read-only targets) or DocumentType children; exhaustive enumeration of short histories is not done (seeded sampling only)."),
+   text="The first 157 869 runs of a batch are enumerated, not sampled: every history of length 1 and 2 over four binary structural operations (appendChild, insertBefore, removeChild, replaceChild) with all 81 operand pairs and nine unary operations (clone deep / shallow, normalize, splitText, adoptNode, renameNode with and without namespace, setTextContent, importNode) with all 9 operands, on a fixed world of 9 nodes (thorough: also 3.8 million histories of length 3). Each of the remaining runs creates 1-2 documents and executes a seeded history (quick 3-40 steps, thorough up to 800) of create*, insertBefore / appendChild / removeChild / replaceChild, cloneNode, importNode, adoptNode, renameNode, attribute set / remove by name and by node, character-data edits with arbitrary offsets, splitText, normalize, setTextContent, setUserData and release, with operands drawn from all live nodes of all documents and detached subtrees, so that the forbidden combinations (node into itself or a descendant, foreign-document node, reference child that is no child, second document element, out-of-range offset, invalid name) occur at the rate legal ones do. After every step: a forbidden call must have raised DOMException with a code of one of the violated preconditions and every call the model allows must have succeeded; then a parallel walk of all live roots compares type, name, value, namespace, parent / sibling / first / last / childNodes links in both directions, attribute maps and owner elements, ownerDocument, and the document element with the reference.",
+   note="The model does not mirror the Text children that carry attribute values, entity-reference subtrees (read-only targets) or DocumentType children; the enumerated part covers structural operations only (attribute and character-data operations are sampled)."),
 })
 
 CLAIMED.update({
